@@ -5,6 +5,7 @@ from .lib.linear import Lin, lin
 SELECT = (r'characteristic_value_access$|characteristic_value_read_access$|characteristic_value_write_access$|^bluetoe::details::attribute_value_read_access$|^bluetoe::details::attribute_value_read_only_access$'
           r'|^bluetoe::details::generate_attribute::(char_declaration_access|access)$|^bluetoe::service::\w*access$|^bluetoe::server::l2cap_output$')
 UNITS = lambda u: u in ('w_inst_att',) or u.startswith('t_char') or u.startswith('t_att_read') or u.startswith('t_att_write') or u.startswith('t_read_write')
+ALSO = [('C07', ('execute-writes-own-attribute',))]   # a queued write stores its bytes in the attribute it was prepared for: decided by C07's rule, run here as well
 META = {
     'level': 'sibling agreement over the value implementations (bound variable, fixed value, constant string/blob, handler based): the code that produces value bytes is selected by the same constant '
              '(has_read_access) that builds the Read bit of the declared properties, the code that stores bytes by has_write_access; writes to a bound variable are preceded by offset and offset+size tests against '
